@@ -28,76 +28,116 @@ package iparser
 // is the line of the start token of the parse context the walker passed to this callback (and Code its text).
 // Trusted: that the walker passes the construct's own context and that ANTLR's token line is the 1-based text line.
 //@ func (*GengineParserListener).ExitAssignment
-//@   props C20
+//@   props C20 C02
 //@   requires g != nil && ctx != nil
 //@   ghost handed int = 0
+//@   ghost node int = 0
+//@   oncall (*antlr.BaseParserRuleContext).GetText
+//@     after node := expr
 //@   oncall base.AssignmentHolder.AcceptAssignment
 //@     assert [C20] positioned: arg0 != nil && arg0.LineNum == tokLine(startTok(ctx.BaseParserRuleContext)) && arg0.Column == tokCol(startTok(ctx.BaseParserRuleContext)) && arg0.Code == ctxText(ctx.BaseParserRuleContext)
+//@     assert [C02] ownnode: arg0 == node && node != 0
 //@     after handed := handed + 1
 //@   ensures [C20] once: old(len(g.ParseErrors)) == 0 ==> handed == 1
+//@   modifies base.SourceCode.Code, base.SourceCode.LineNum, base.SourceCode.Column, base.SourceCode.LineStop, g.ParseErrors
 
 //@ func (*GengineParserListener).ExitMathExpression
-//@   props C20
+//@   props C20 C01
 //@   requires g != nil && ctx != nil
 //@   ghost handed int = 0
+//@   ghost node int = 0
+//@   oncall (*antlr.BaseParserRuleContext).GetText
+//@     after node := expr
 //@   oncall base.MathExpressionHolder.AcceptMathExpression
 //@     assert [C20] positioned: arg0 != nil && arg0.LineNum == tokLine(startTok(ctx.BaseParserRuleContext)) && arg0.Column == tokCol(startTok(ctx.BaseParserRuleContext)) && arg0.Code == ctxText(ctx.BaseParserRuleContext)
+//@     assert [C01] ownnode: arg0 == node && node != 0
 //@     after handed := handed + 1
 //@   ensures [C20] once: old(len(g.ParseErrors)) == 0 ==> handed == 1
+//@   modifies base.SourceCode.Code, base.SourceCode.LineNum, base.SourceCode.Column, base.SourceCode.LineStop, g.ParseErrors
 
 //@ func (*GengineParserListener).ExitExpression
-//@   props C20
+//@   props C20 C01
 //@   requires g != nil && ctx != nil
 //@   ghost handed int = 0
+//@   ghost node int = 0
+//@   oncall (*antlr.BaseParserRuleContext).GetText
+//@     after node := expr
 //@   oncall base.ExpressionHolder.AcceptExpression
 //@     assert [C20] positioned: arg0 != nil && arg0.LineNum == tokLine(startTok(ctx.BaseParserRuleContext)) && arg0.Column == tokCol(startTok(ctx.BaseParserRuleContext)) && arg0.Code == ctxText(ctx.BaseParserRuleContext)
+//@     assert [C01] ownnode: arg0 == node && node != 0
 //@     after handed := handed + 1
 //@   ensures [C20] once: old(len(g.ParseErrors)) == 0 ==> handed == 1
+//@   modifies base.SourceCode.Code, base.SourceCode.LineNum, base.SourceCode.Column, base.SourceCode.LineStop, g.ParseErrors
 
 //@ func (*GengineParserListener).ExitExpressionAtom
-//@   props C20
+//@   props C20 C01
 //@   requires g != nil && ctx != nil
 //@   ghost handed int = 0
+//@   ghost node int = 0
+//@   oncall (*antlr.BaseParserRuleContext).GetText
+//@     after node := expr
 //@   oncall base.ExpressionAtomHolder.AcceptExpressionAtom
 //@     assert [C20] positioned: arg0 != nil && arg0.LineNum == tokLine(startTok(ctx.BaseParserRuleContext)) && arg0.Column == tokCol(startTok(ctx.BaseParserRuleContext)) && arg0.Code == ctxText(ctx.BaseParserRuleContext)
+//@     assert [C01] ownnode: arg0 == node && node != 0
 //@     after handed := handed + 1
 //@   ensures [C20] once: old(len(g.ParseErrors)) == 0 ==> handed == 1
+//@   modifies base.SourceCode.Code, base.SourceCode.LineNum, base.SourceCode.Column, base.SourceCode.LineStop, g.ParseErrors
 
 //@ func (*GengineParserListener).ExitMethodCall
-//@   props C20
+//@   props C20 C03
 //@   requires g != nil && ctx != nil
 //@   ghost handed int = 0
+//@   ghost node int = 0
+//@   oncall (*antlr.BaseParserRuleContext).GetText
+//@     after node := expr
 //@   oncall base.MethodCallHolder.AcceptMethodCall
 //@     assert [C20] positioned: arg0 != nil && arg0.LineNum == tokLine(startTok(ctx.BaseParserRuleContext)) && arg0.Column == tokCol(startTok(ctx.BaseParserRuleContext)) && arg0.Code == ctxText(ctx.BaseParserRuleContext)
+//@     assert [C03] ownnode: arg0 == node && node != 0
 //@     after handed := handed + 1
 //@   ensures [C20] once: old(len(g.ParseErrors)) == 0 ==> handed == 1
+//@   modifies base.SourceCode.Code, base.SourceCode.LineNum, base.SourceCode.Column, base.SourceCode.LineStop, g.ParseErrors
 
 //@ func (*GengineParserListener).ExitThreeLevelCall
-//@   props C20
+//@   props C20 C03
 //@   requires g != nil && ctx != nil
 //@   ghost handed int = 0
+//@   ghost node int = 0
+//@   oncall (*antlr.BaseParserRuleContext).GetText
+//@     after node := expr
 //@   oncall base.ThreeLevelCallHolder.AcceptThreeLevelCall
 //@     assert [C20] positioned: arg0 != nil && arg0.LineNum == tokLine(startTok(ctx.BaseParserRuleContext)) && arg0.Column == tokCol(startTok(ctx.BaseParserRuleContext)) && arg0.Code == ctxText(ctx.BaseParserRuleContext)
+//@     assert [C03] ownnode: arg0 == node && node != 0
 //@     after handed := handed + 1
 //@   ensures [C20] once: old(len(g.ParseErrors)) == 0 ==> handed == 1
+//@   modifies base.SourceCode.Code, base.SourceCode.LineNum, base.SourceCode.Column, base.SourceCode.LineStop, g.ParseErrors
 
 //@ func (*GengineParserListener).ExitFunctionCall
-//@   props C20
+//@   props C20 C03
 //@   requires g != nil && ctx != nil
 //@   ghost handed int = 0
+//@   ghost node int = 0
+//@   oncall (*antlr.BaseParserRuleContext).GetText
+//@     after node := expr
 //@   oncall base.FunctionCallHolder.AcceptFunctionCall
 //@     assert [C20] positioned: arg0 != nil && arg0.LineNum == tokLine(startTok(ctx.BaseParserRuleContext)) && arg0.Column == tokCol(startTok(ctx.BaseParserRuleContext)) && arg0.Code == ctxText(ctx.BaseParserRuleContext)
+//@     assert [C03] ownnode: arg0 == node && node != 0
 //@     after handed := handed + 1
 //@   ensures [C20] once: old(len(g.ParseErrors)) == 0 ==> handed == 1
+//@   modifies base.SourceCode.Code, base.SourceCode.LineNum, base.SourceCode.Column, base.SourceCode.LineStop, g.ParseErrors
 
 //@ func (*GengineParserListener).ExitMapVar
-//@   props C20
+//@   props C20 C03
 //@   requires g != nil && ctx != nil
 //@   ghost handed int = 0
+//@   ghost node int = 0
+//@   oncall (*antlr.BaseParserRuleContext).GetText
+//@     after node := mapVar
 //@   oncall base.MapVarHolder.AcceptMapVar
 //@     assert [C20] positioned: arg0 != nil && arg0.LineNum == tokLine(startTok(ctx.BaseParserRuleContext)) && arg0.Column == tokCol(startTok(ctx.BaseParserRuleContext)) && arg0.Code == ctxText(ctx.BaseParserRuleContext)
+//@     assert [C03] ownnode: arg0 == node && node != 0
 //@     after handed := handed + 1
 //@   ensures [C20] once: old(len(g.ParseErrors)) == 0 ==> handed == 1
+//@   modifies base.SourceCode.Code, base.SourceCode.LineNum, base.SourceCode.Column, base.SourceCode.LineStop, g.ParseErrors
 
 //@ func (*GengineParserListener).ExitForRangeStmt
 //@   props C20 C02
